@@ -366,6 +366,11 @@ pub mod header {
 //@@ extractall header_consts
 }
 
+/// (not used by the code under contract; declared so that a change to them fails a clause instead of leaving the unit undecided)
+pub uninterp spec fn sp_starts_with<P>(s: Seq<char>, p: P) -> bool;
+pub uninterp spec fn sp_trim_start_matches<P>(s: Seq<char>, p: P) -> Seq<char>;
+pub assume_specification<P: Pattern>[ str::starts_with::<P> ](s: &str, p: P) -> (r: bool) ensures r == sp_starts_with(s@, p);
+pub assume_specification<'a, P: Pattern>[ str::trim_start_matches::<P> ](s: &'a str, p: P) -> (r: &'a str) ensures r@ == sp_trim_start_matches(s@, p);
 /// `str::strip_prefix` over Pattern (trusted; generic result uninterpreted, its meaning for `&str` patterns is an axiom)
 pub uninterp spec fn sp_strip_prefix<P>(s: Seq<char>, p: P) -> Option<Seq<char>>;
 pub assume_specification<'a, P: Pattern>[ str::strip_prefix::<P> ](s: &'a str, p: P) -> (r: Option<&'a str>)
